@@ -323,6 +323,25 @@ impl Gen<'_> {
         if self.rng.chance(1, 6) {
             best = best.wrapping_add(self.rng.range(-2, 2) as u64);
         }
+        if self.rng.chance(1, 5) {
+            // cost / extension arguments in every non-canonical or out-of-range spelling that
+            // `uint_atom` has a branch for (one-byte zero, padded, negative, too long)
+            let odd = |rng: &mut Rng| -> T {
+                quote(T::Atom(match rng.below(8) {
+                    0 => vec![0x00],
+                    1 => vec![0x00, 0x00],
+                    2 => vec![0x00, 0x01],
+                    3 => vec![0x00, 0x80],
+                    4 => vec![0xff],
+                    5 => vec![0x80, 0x00],
+                    6 => vec![0x00, 0xff, 0xff, 0xff, 0xff],
+                    _ => vec![0x01, 0, 0, 0, 0, 0, 0, 0, 0],
+                }))
+            };
+            let cost_arg = if self.rng.chance(1, 2) { odd(self.rng) } else { quote(int(best as i128)) };
+            let ext_arg = if self.rng.chance(1, 2) { odd(self.rng) } else { quote(int(ext)) };
+            return call(36, vec![cost_arg, ext_arg, quote(body), quote(atom(&[]))]);
+        }
         mk(best)
     }
 }
@@ -795,6 +814,31 @@ pub fn generate_op_limits(rng: &mut Rng, n: usize, _tier: &str) -> Vec<String> {
         let y = mk(rng, l1);
         let fl = *rng.pick(&flag_sets);
         push(name, fl, vec![T::Atom(b), y]);
+    }
+    out
+}
+
+/// RUN stream: softfork guards whose cost and extension arguments take every spelling `uint_atom`
+/// distinguishes (canonical, one-byte zero, padded, negative, too long), under the flag sets that
+/// change how they are parsed
+pub fn generate_run_softfork_args(_rng: &mut Rng, _n: usize, _tier: &str) -> Vec<String> {
+    let spellings: Vec<Vec<u8>> = vec![
+        vec![], vec![0x00], vec![0x00, 0x00], vec![0x00, 0x01], vec![0x00, 0x80], vec![0x01], vec![0x02], vec![0x7f], vec![0x80],
+        vec![0xff], vec![0x80, 0x00], vec![0x00, 0xc8], vec![0x00, 0xff, 0xff, 0xff, 0xff], vec![0x00, 0xff, 0xff, 0xff, 0xff, 0xff, 0xff, 0xff, 0xff],
+        vec![0x01, 0, 0, 0, 0, 0, 0, 0, 0], vec![0x00, 0x00, 0xc8],
+    ];
+    let costs: Vec<Vec<u8>> = vec![vec![0x00, 0xc8], vec![0x00, 0xa1], vec![0x00, 0xb5]];
+    let mut out = vec![];
+    let mut id = 0;
+    let body = quote(int(42));
+    for flags in [0u32, 0x1, 0x2, 0x3, 0x10, 0x217, 0x2000, 0x2001, 0x2003] {
+        for c in spellings.iter().chain(costs.iter()) {
+            for e in &spellings {
+                let p = call(36, vec![quote(T::Atom(c.clone())), quote(T::Atom(e.clone())), quote(body.clone()), quote(atom(&[]))]);
+                out.push(format!("RUN k{} chia {:x} 0 - {} 80", id, flags, trees::to_hex(&p)));
+                id += 1;
+            }
+        }
     }
     out
 }
